@@ -7,7 +7,6 @@ From V.model Require Import RelEdit RelEditSpec RelEditTree RelLiveAll RelLiveAl
 From V.proofs Require Import BaseP RelEditP RelEditStP RelEditHistP RelEditTreeP RelEditReplaceP RelEditParsedP RelEditBuildP RelEditParsedAllP.
 From V.proofs Require Import RelGrammarAllAccP RelGrammarAllParseP.
 From V.proofs Require Import RelLiveAllP RelLiveAllStepP RelLiveAllWfP RelLiveAllNormP RelLiveAllHistP.
-Set Default Timeout 60.
 
 (* ------------------------------------------------------------------ what a readable operand text gives *)
 Lemma place_in e post : forall pre w, exists w', In (w', e) (place w pre e post).
